@@ -24,7 +24,7 @@ RULE = ('cases = (function form, nrows, set of failing rows, set of failing fiel
         'Non-trivial: at least one failing and one non-failing row. Distinct = SHA-1 of the case.')
 ASSUMPTIONS = ['the private exception type identifies the converter failure', 'config default is read when the view is constructed (anchor mechanism)']
 EXC_NAMES_ = sorted(['InjectedFault'] + [b.__name__ for b in (KeyError, IndexError, ValueError, TypeError, AttributeError, ZeroDivisionError, RuntimeError, AssertionError, LookupError, ArithmeticError, UnicodeError, OSError, NotImplementedError, Exception)] + ['StopIteration'])
-FORMS = ['convert-callable', 'convert-multi', 'convert-method', 'convert-passrow', 'convert-where', 'convertall', 'fieldmap', 'rowmap', 'rowmapmany']
+FORMS = ['convert-callable', 'convert-multi', 'convert-method', 'convert-passrow', 'convert-where', 'convertall', 'convertnumbers', 'fieldmap', 'rowmap', 'rowmapmany']
 REQUIRED = (['form:' + f for f in FORMS] + ['policy:False', 'policy:True', 'policy:inline', 'via:config', 'via:arg',
             'fail-first-row', 'fail-last-row', 'fail-consecutive', 'fail-all-rows', 'exception-surfaced-at-failing-row',
             'inline-exception-delivered', 'errorvalue-delivered', 'row-dropped', 'generator-rows-kept-before-failure', 'rowmap:lazy-mapper-result'] +
@@ -56,7 +56,7 @@ def cases(ctx):
     maxn = ctx.pick(5, 7)
     count = [0]
     for form in FORMS:
-        cellwise = form in ('convert-callable', 'convert-multi', 'convert-passrow', 'convert-where', 'fieldmap', 'convertall')
+        cellwise = form in ('convert-callable', 'convert-multi', 'convert-passrow', 'convert-where', 'fieldmap', 'convertall', 'convertnumbers')
         for n in range(0, maxn + 1):
             for k in range(0, n + 1):
                 for failrows in itertools.combinations(range(n), k):
@@ -93,6 +93,10 @@ def _table(case):
         a, b = 'a%d' % i, 'b%d' % i
         if case['form'] == 'convert-method' and i in case['failrows']:
             a = None     # None.upper() -> AttributeError raised inside petl's methodcaller
+        if case['form'] == 'convertnumbers':
+            # the strict number parser raises ValueError for 'x..' cells and parses the others
+            a = ('x%d' if (i in case['failrows'] and 'a' in case['failfields']) else '1%d') % i
+            b = ('x%d' if (i in case['failrows'] and 'b' in case['failfields']) else '2%d') % i
         rows.append([i, a, b])
     return [['id', 'a', 'b']] + rows
 
@@ -166,6 +170,9 @@ def judge(case, ctx):
         view = petl.convert(table, ('a', 'b'), conv, where=where, **kw)
     elif form == 'convertall':
         view = petl.convertall(table, conv_any, **kw)
+    elif form == 'convertnumbers':
+        view = petl.convertnumbers(table, strict=True, **kw)
+        exc_type = ValueError
     elif form == 'fieldmap':
         from collections import OrderedDict
         m = OrderedDict()
@@ -220,7 +227,7 @@ def judge(case, ctx):
     exp_rows = []
     exp_raise_after = None     # number of data rows delivered before the exception surfaces
     exp_raise_key = None
-    cell_forms = ('convert-callable', 'convert-multi', 'convert-method', 'convert-passrow', 'convert-where', 'convertall', 'fieldmap')
+    cell_forms = ('convert-callable', 'convert-multi', 'convert-method', 'convert-passrow', 'convert-where', 'convertall', 'convertnumbers', 'fieldmap')
     if form in cell_forms:
         hdr = ('id', 'A', 'B') if form == 'fieldmap' else ('id', 'a', 'b')
         ffields = ('a',) if form == 'convert-method' else ('a', 'b')
@@ -245,7 +252,7 @@ def judge(case, ctx):
                     else:
                         row.append(ev)
                 else:
-                    row.append(v.upper())
+                    row.append(int(v) if form == 'convertnumbers' else v.upper())
             if stop:
                 break
             exp_rows.append(tuple(row))
